@@ -8,6 +8,9 @@ for every item list / operation sequence (no bound on sizes).
 -/
 import ConfModel.Lemmas.RawBody
 import ConfModel.Lemmas.RawMerge
+import ConfModel.Lemmas.RawSeq
+import ConfModel.Spec.RawSeq
+import ConfModel.Generated.C17Facts
 namespace ConfModel.Props.C17
 open ConfModel.RawBody ConfModel.RawBodySpec
 
@@ -202,5 +205,143 @@ example :
     get h "Access-Control-Expose-Headers" = ["*", "X-Custom"] ∧ get h "Content-Type" = [] := by decide
 
 end Merge
+
+/-! ## Histories: every raw body a process writes, whatever it wrote (or failed to write) before -/
+
+section History
+open ConfModel.RawSeq ConfModel.RawSeqSpec
+
+/-- **failed_write_prefix.**  A stream body written to a destination that fails after `k` bytes —
+for every `k`, wherever that falls (inside a prefix, inside a payload, between two items) — has put
+exactly the first `k` bytes of the body on that destination, and the writer reports an error iff
+something is missing (or the definition is malformed); whatever an earlier scratch buffer held. -/
+theorem failed_write_prefix (compress : Compress) (s : RawBody.Bytes) (items : List Item) (k : Nat) :
+    (runStep compress s ⟨.stream items, some k⟩).2 =
+      ⟨(writeStream compress items).bytes.take k,
+       (writeStream compress items).failed || decide (k < (writeStream compress items).bytes.length)⟩ := by
+  rw [runStep_obs]; rfl
+
+/-- … and for well-formed items these are the first `k` bytes of the specified envelopes; the
+declarative predicate the correspondence run evaluates on the implementation's output holds. -/
+theorem failed_write_prefix_exact (compress : Compress) (s : RawBody.Bytes) (items : List Item) (budget : Option Nat)
+    (h : items.all (itemOk compress) = true) :
+    stepHolds compress ⟨.stream items, budget⟩ (runStep compress s ⟨.stream items, budget⟩).2 = true := by
+  rw [runStep_obs]
+  simp only [obsOf, stepHolds, h, if_true, writeStream_all_ok compress items h]
+  cases budget <;> simp [cut, cutHolds]
+
+example : [(⟨2, none, some ⟨some [7, 8, 9], 1⟩⟩ : Item)].all (itemOk toyCompress) = true := by decide
+
+/-- a destination that takes 6 of the 8 bytes: the prefix and one payload byte arrive; the scratch
+buffer still holds the two unsent bytes — which no later write may show -/
+example : runStep toyCompress [] ⟨.stream [⟨2, none, some ⟨some [7, 8, 9], 1⟩⟩], some 6⟩ =
+    ([8, 9], ⟨[2, 0, 0, 0, 3, 7], true⟩) := by decide
+
+/-- **history_independent.**  What a write shows is a function of that write alone: after any
+history of earlier writes — streams and messages, to sound destinations and to destinations that
+failed at any offset — and whatever the scratch buffer held at the start, the observations are
+the per-write ones, one by one. -/
+theorem history_independent (compress : Compress) (s : RawBody.Bytes) (hist : List Step) :
+    (runHist compress s hist).2 = hist.map (obsOf compress) :=
+  runHist_obs compress hist s
+
+/-- spelled out for the write that follows a history: it shows exactly what it would show as the
+first write of a fresh process -/
+theorem write_after_any_history (compress : Compress) (s : RawBody.Bytes) (hist : List Step) (st : Step) :
+    (runHist compress s (hist ++ [st])).2 = (runHist compress s hist).2 ++ (runHist compress [] [st]).2 := by
+  rw [runHist_append, runHist_obs compress [st], runHist_obs compress [st]]
+
+/-- … so a well-formed stream body that follows any history reaches a sound destination exactly
+as specified -/
+theorem stream_after_any_history_exact (compress : Compress) (s : RawBody.Bytes) (hist : List Step) (items : List Item)
+    (h : items.all (itemOk compress) = true) :
+    (runHist compress s (hist ++ [⟨.stream items, none⟩])).2 =
+      hist.map (obsOf compress) ++ [⟨streamBytes compress items, false⟩] := by
+  rw [runHist_obs]
+  simp [obsOf, cut, writeStream_all_ok compress items h]
+
+example : [(⟨0, none, some ⟨some [1], 1⟩⟩ : Item)].all (itemOk toyCompress) = true := by decide
+
+/-- non-vacuity: a failed write (scratch left non-empty), then a computed-length item -/
+example : (runHist toyCompress [] [⟨.stream [⟨2, none, some ⟨some [7, 8, 9], 1⟩⟩], some 6⟩,
+      ⟨.unary (some ⟨some [4, 4], 1⟩), some 1⟩, ⟨.stream [⟨0, none, some ⟨some [1], 1⟩⟩], none⟩]).2 =
+    [⟨[2, 0, 0, 0, 3, 7], true⟩, ⟨[4], true⟩, ⟨[0, 0, 0, 0, 1, 1], false⟩] := by decide
+
+/-! ## The status of a raw response -/
+
+/-- the arbitration automaton's `finish` sends the status of the rule below -/
+theorem finish_sends_finishStatus (s : St) (r : Raw) (h : s.raw = some r) :
+    finish s = s.wire ++ [.header (finishStatus r.status), .body r.body] := by
+  simp [finish, h, finishStatus]
+
+example : (run {} [.setRaw ⟨799, [1]⟩, .write [9]]).1.raw = some ⟨799, [1]⟩ ∧
+    finish (run {} [.setRaw ⟨799, [1]⟩, .write [9]]).1 = [.header 799, .body [1]] := by decide
+
+/-- **finish_status_table.**  The status rule of the real `rawResponseWriter.finish`, observed on
+*every* prescribed value 0..1100 (regenerated from the tree on every run), is the model's: 200 for
+an unset status, the prescribed value otherwise — no other value is replaced. -/
+theorem finish_status_table (c : Nat) (h : c ≤ 1100) :
+    evalRuns Generated.C17Facts.statusRuns c = some (finishStatus c) := by
+  have : Generated.C17Facts.statusRuns = statusRuns := by decide
+  rw [this]; exact evalRuns_statusRuns c h
+
+example : (599 : Nat) ≤ 1100 ∧ (600 : Nat) ≤ 1100 ∧ (999 : Nat) ≤ 1100 := by decide
+
+/-- … and on values far outside (a `uint32` field: no truncation, no wrap-around) -/
+theorem finish_status_probes :
+    Generated.C17Facts.statusProbes.all (fun p => finishStatus p.1 == p.2) = true := by decide
+
+/-- **raw_status_exact.**  A prescribed code in the range HTTP can carry (100..999) is the code on
+the wire, over HTTP/1.1 and HTTP/2: the final status — and nothing before it — for 200..999, an
+informational response (or, for 101 over HTTP/1.1, the final status) for 100..199. -/
+theorem raw_status_exact (p : Proto) (c : Nat) (h1 : 100 ≤ c) (h2 : c ≤ 999) :
+    ∃ w, statusOnWire p c = some w ∧ statusHonoured c w.info w.final = true ∧
+      (200 ≤ c → w.final = c ∧ w.info = []) := by
+  have hc0 : (c == 0) = false := by simp; omega
+  have hlo : ¬ c < 100 := by omega
+  have hhi : ¬ c > 999 := by omega
+  by_cases h200 : 200 ≤ c
+  · have : ¬ c ≤ 199 := by omega
+    refine ⟨⟨[], c, !(c ≤ 199 || c == 204 || c == 304)⟩, ?_, ?_, fun _ => ⟨rfl, rfl⟩⟩
+    · simp [statusOnWire, finishStatus, writeHeaderLaw, hc0, hlo, hhi, this]
+    · simp [statusHonoured, hc0, h200, h2]
+  · have h199 : c ≤ 199 := by omega
+    have hn : ¬ (200 ≤ c) := h200
+    by_cases h101 : p = .h1 ∧ c = 101
+    · obtain ⟨hp, hc⟩ := h101
+      subst hp; subst hc
+      exact ⟨⟨[], 101, false⟩, by decide, by decide, by decide⟩
+    · refine ⟨⟨[c], 200, true⟩, ?_, ?_, fun h => absurd h hn⟩
+      · have : (p == Proto.h1 && c == 101) = false := by
+          cases p <;> simp_all
+        simp [statusOnWire, finishStatus, writeHeaderLaw, hc0, hlo, hhi, h199, this]
+      · simp [statusHonoured, hc0, hn, h1, h199]
+
+example : statusOnWire .h2 799 = some ⟨[], 799, true⟩ ∧ statusOnWire .h1 600 = some ⟨[], 600, true⟩ ∧
+    statusOnWire .h1 204 = some ⟨[], 204, false⟩ ∧ statusOnWire .h2 101 = some ⟨[101], 200, true⟩ := by decide
+
+/-- an unset status is 200, nothing else precedes it; a value HTTP cannot carry aborts the exchange -/
+theorem raw_status_default (p : Proto) :
+    statusOnWire p 0 = some ⟨[], 200, true⟩ ∧ statusOnWire p 99 = none ∧ statusOnWire p 1000 = none := by
+  cases p <;> decide
+
+/-- distinct prescribed codes stay distinct on the wire -/
+theorem raw_status_injective (p : Proto) (c d : Nat) (hc1 : 100 ≤ c) (hc2 : c ≤ 999) (hd1 : 100 ≤ d) (hd2 : d ≤ 999)
+    (h : statusOnWire p c = statusOnWire p d) : c = d := by
+  obtain ⟨w, hw, _, hwf⟩ := raw_status_exact p c hc1 hc2
+  obtain ⟨v, hv, _, hvf⟩ := raw_status_exact p d hd1 hd2
+  have hcz : (c == 0) = false := by simp; omega
+  have hdz : (d == 0) = false := by simp; omega
+  simp only [statusOnWire, finishStatus, hcz, hdz, writeHeaderLaw] at h
+  have a1 : ¬ c < 100 := by omega
+  have a2 : ¬ c > 999 := by omega
+  have b1 : ¬ d < 100 := by omega
+  have b2 : ¬ d > 999 := by omega
+  simp only [a1, a2, b1, b2, decide_false, Bool.or_false, Bool.false_eq_true, if_false] at h
+  split at h <;> split at h <;> simp at h <;> simp_all <;> omega
+
+example : (100 : Nat) ≤ 600 ∧ (600 : Nat) ≤ 999 := by decide
+
+end History
 
 end ConfModel.Props.C17
